@@ -270,17 +270,22 @@ Definition drop (at_a : bool) (n : N) (w : world) : result world :=
       match lookup k (cache s) with
       | Some (n', rc) =>
           if (n' =? n)%N then
-            do (args, w1) <- transfer at_a (PTuple [POther (proxy_name n); PInt rc]) w;
-            let s1 := get w1 at_a in
-            let o1 := get w1 (negb at_a) in
-            let s2 := set_cache s1 (remove k (cache s1)) in
-            match args with
-            | PTuple [obj; PInt c] =>
-                match coll_decref (idp obj) c (ltab o1) with
-                | Ok t => Ok (put2 at_a s2 (set_ltab o1 t))
-                | _ => Ok (put2 at_a s2 o1)          (* the exception reply is ignored by asyncreq *)
+            match transfer at_a (PTuple [POther (proxy_name n); PInt rc]) w with
+            | Ok (args, w1) =>
+                let s1 := get w1 at_a in
+                let o1 := get w1 (negb at_a) in
+                let s2 := set_cache s1 (remove k (cache s1)) in
+                match args with
+                | PTuple [obj; PInt c] =>
+                    match coll_decref (idp obj) c (ltab o1) with
+                    | Ok t => Ok (put2 at_a s2 (set_ltab o1 t))
+                    | _ => Ok (put2 at_a s2 o1)          (* the exception reply is ignored by asyncreq *)
+                    end
+                | _ => Ok (put2 at_a s2 o1)
                 end
-            | _ => Ok (put2 at_a s2 o1)
+            | _ =>    (* the owner could not even resolve the reference: the proxy is gone all the same (the finalizer
+                         swallows every exception) *)
+                Ok (put2 at_a (set_cache s (remove k (cache s))) (get w (negb at_a)))
             end
           else Ok w
       | None => Ok w
@@ -381,6 +386,20 @@ Definition idp_std (v : pyval) : idpack :=
   | _ => ([118%N], 7, 8 * Z.of_N (max_other v) + 3)
   end.
 
+(* get_id_pack is NOT a function of the object's identity alone: the name and the class id in the pack follow the
+   object's current class (o.__class__ = K2) and the class's current name (K.__name__ = "X").  [ren] lists the
+   application objects whose pack has been changed that way (an even number of times = back to the original). *)
+Fixpoint rekeyed (ren : list N) (k : N) : bool :=
+  match ren with
+  | [] => false
+  | x :: r => xorb (N.eqb x k) (rekeyed r k)
+  end.
+Definition idp_ren (ren : list N) (v : pyval) : idpack :=
+  match v with
+  | POther k => let '(n, c, o) := idp_std v in if rekeyed ren k then (n ++ [114%N], c, o) else (n, c, o)
+  | _ => idp_std v
+  end.
+
 (* ---- harness interface ---- *)
 Definition sx_idpack (i : idpack) : sx := let '(n, c, o) := i in SL [SL (map sN n); SI c; SI o].
 Definition sx_side (s : side) : sx :=
@@ -415,27 +434,46 @@ Definition uladder_of_sx (x : sx) : uladder :=
   | _ => std_uladder
   end.
 
-(* trace: after every step the outcome, the package that went on the wire (Send only) and both parties *)
-Fixpoint trace (P : bparams) (bl : bladder) (ul : uladder) (ops : list op) (w : world) : list sx :=
+(* a history as the harness sees it: the model's steps, and changes of an object's class / class name in between *)
+Inductive top := TOp (o : op) | TRekey (a : bool) (ks : list N).
+Definition top_of_sx (x : sx) : top :=
+  match x with
+  | SL [SI 4; a; SL ks] => TRekey (sx_bool a) (map sx_n ks)
+  | _ => TOp (op_of_sx x)
+  end.
+
+(* trace: after every step the outcome, the package that went on the wire (Send only) and both parties.
+   get_id_pack is evaluated at the party that owns the objects of the step. *)
+Fixpoint trace (P : bparams) (bl : bladder) (ul : uladder) (ops : list top) (w : world) (ra rb : list N) : list sx :=
   match ops with
   | [] => []
-  | o :: r =>
+  | TRekey a ks :: r =>
+      SL [sx_result sx_of_pv (Ok PNone); SL []; sx_world w]
+        :: trace P bl ul r w (if a then ks ++ ra else ra) (if a then rb else ks ++ rb)
+  | TOp o :: r =>
+      let idp := match o with
+                 | Send a _ => idp_ren (if a then ra else rb)
+                 | Drop a _ | Mutate a _ _ => idp_ren (if a then rb else ra)
+                 | Raw _ _ _ => idp_std
+                 end in
       let pkg := match o with
-                 | Send a v => sx_result (fun pr => SL [sx_of_pv (fst pr); SL (map sx_of_pv (snd pr))]) (box bl idp_std (made (get w a)) v)
+                 | Send a v => sx_result (fun pr => SL [sx_of_pv (fst pr); SL (map sx_of_pv (snd pr))]) (box bl idp (made (get w a)) v)
                  | _ => SL []
                  end in
-      let res := step P bl ul idp_std o w in
+      let res := step P bl ul idp o w in
       let w' := match res with Ok (_, w') => w' | _ => w end in
-      SL [sx_result (fun vw => sx_of_pv (fst vw)) res; pkg; sx_world w'] :: trace P bl ul r w'
+      SL [sx_result (fun vw => sx_of_pv (fst vw)) res; pkg; sx_world w'] :: trace P bl ul r w' ra rb
   end.
 
 Definition run_box (x : sx) : sx :=
   match x with
   | SL [tag; p; bl; ul; SL ops] =>
       if is_tag "hist" tag then
-        SL (trace (params_of_sx p) (bladder_of_sx bl) (uladder_of_sx ul) (map op_of_sx ops) world0)
+        SL (trace (params_of_sx p) (bladder_of_sx bl) (uladder_of_sx ul) (map top_of_sx ops) world0 [] [])
       else bad_input
   | SL [tag; v] =>
-      if is_tag "idp" tag then sx_idpack (idp_std (pv_of_sx v)) else bad_input
+      if is_tag "idp" tag then sx_idpack (idp_std (pv_of_sx v))
+      else if is_tag "idpr" tag then sx_idpack (idp_ren [max_other (pv_of_sx v)] (pv_of_sx v))
+      else bad_input
   | _ => bad_input
   end.
